@@ -36,8 +36,8 @@ if not WORKER_MODE:
 
 IMPORTS = 'From JV Require Import Base.Str Model.C16_Determinism.\n'
 
-FP = [('jedi/api/helpers.py', 'sorted_definitions'), ('jedi/api/classes.py', 'BaseName.__eq__'),
-      ('jedi/api/classes.py', 'BaseName.__hash__'), ('jedi/api/classes.py', 'BaseName.line'),
+FP = [('jedi/api/helpers.py', 'sorted_definitions'), ('jedi/api/classes.py', 'Name.__eq__'),
+      ('jedi/api/classes.py', 'Name.__hash__'), ('jedi/api/classes.py', 'BaseName.line'),
       ('jedi/api/classes.py', 'BaseName.column'), ('jedi/api/classes.py', 'BaseName.module_path'),
       ('jedi/api/__init__.py', 'Script.infer'), ('jedi/api/__init__.py', 'Script.goto'),
       ('jedi/api/__init__.py', 'Script.get_references'), ('jedi/api/__init__.py', 'Script.get_signatures'),
@@ -147,6 +147,9 @@ def gen_project(rng, with_siblings=True):
         lines.append('    return %s()' % exprs[-1])
         lines.append('v7 = cross(%s)' % ', '.join('1' for _ in exprs))
         vs.append('v7')
+    # crash corner (DESIGN §E): queries here raise from deep inside the engine (K2; K1/K3/K4 in the tails) -
+    # they are the "failing queries in between" that exercise every finally: on the way out
+    lines += ['kk = None', 'kk.real', 'lst = [1, 2]']
     lines.append('v1; v2; v3; v4; v5; v6; num')
     lines.append('v1.%s; v2.%s; v4.%s' % (info[a][0][0], info[b][0][0], meth))
     lines.append('w = v1.%s' % meth)
@@ -165,6 +168,7 @@ def gen_project(rng, with_siblings=True):
         else:
             tails.append(('complete', rng.choice(['v', 'p', 't', names[0][:1]])))
     tails.append(('signatures', 'twice('))
+    tails.append(('crash', rng.choice(['lst.', '%s.' % names[0], 'twice.', 'kk.', 'v1.%s.' % meth])))
     return files, base, tails
 
 
@@ -176,6 +180,8 @@ CORPUS = [
     ({'m1.py': "class K:\n    v = 1\n", 'm2.py': "class K:\n    v = 2\n"},
      "import m2\nimport m1\ndef f(c):\n    if c:\n        return m2.K()\n    return m1.K()\nz = f(1)\nz\nz.v\n"),
     ({}, "def f(a):\n    return a\ndef f(a, b):\n    return b\nx = 1\nx = 's'\nx\nf(x, \n"),
+    ({}, "class A:\n    def m(self):\n        return 1\ndef g(c):\n    if c:\n        return A()\n    return None\n"
+         "kk = None\nkk.real\nw = g(1)\nw\nw.m\nlst = [1]\nlst."),
 ]
 
 IDENT = re.compile(r'[A-Za-z_][A-Za-z_0-9]*')
@@ -219,12 +225,13 @@ def make_cases(rng, nproj, root):
         lines = source.split('\n')
         qs = []
         # the multi-valued uses at the end are always asked, the rest is sampled
-        tail_pos = [p for p in poss if p[0] >= len(lines) - 6]
+        tail_pos = [p for p in poss if p[0] >= len(lines) - 8]
+        tail_pos = sorted(rng.sample(tail_pos, min(len(tail_pos), 2 * nq)))
         sample = rng.sample(poss, min(len(poss), nq)) if poss else []
         for (ln, col, word) in tail_pos + [p for p in sample if p not in tail_pos]:
             c = col + rng.randint(0, len(word))
             for m in ('infer', 'goto', 'goto_fi', 'help', 'refs', 'refs_file', 'context'):
-                if m == 'infer' or rng.random() < 0.3:
+                if (m == 'infer' and rng.random() < 0.8) or rng.random() < 0.25:
                     qs.append((m, ln, c))
         last = len(lines[-1]) if lines else 0
         lastline = len(lines)
@@ -237,14 +244,14 @@ def make_cases(rng, nproj, root):
 
     pid = 0
     for files, src in CORPUS:
-        add(pid, files, src, bool(files), 6)
+        add(pid, files, src, bool(files), 4)
         pid += 1
     for _ in range(nproj):
         sib = rng.random() < 0.7
         files, base, tails = gen_project(rng, with_siblings=sib)
-        add(pid, files, base, sib or rng.random() < 0.5, 5)
+        add(pid, files, base, sib or rng.random() < 0.5, 6)
         pid += 1
-        for kind, t in rng.sample(tails, min(len(tails), 3)):
+        for kind, t in rng.sample(tails[:-1], min(len(tails) - 1, 2)) + [tails[-1]]:
             add(pid, files, base + t, sib or rng.random() < 0.5, 2)
             pid += 1
     return cases
@@ -533,11 +540,33 @@ class Numbering:
         return self.d[k]
 
 
+class Intern:
+    """strings and records are defined once per Coq file and referred to by name: the case lists stay small"""
+    table = {}
+    defs = []
+
+    @classmethod
+    def get(cls, term, ty):
+        k = (term, ty)
+        if k not in cls.table:
+            cls.table[k] = 'jv_i%d' % len(cls.table)
+            cls.defs.append('Definition %s : %s := %s.' % (cls.table[k], ty, term))
+        return cls.table[k]
+
+    @classmethod
+    def text(cls):
+        return '\n'.join(cls.defs) + '\n'
+
+
+def gi_str(s):
+    return Intern.get(g_str(s), 'str')
+
+
 def g_res(r, pay, ist):
     pos, path, name, st, payload = r[0], r[1], r[2], r[3], r[4]
-    return '{| r_pos := %s; r_path := %s; r_name := %s; r_ist := %s; r_pay := %s |}' % (
-        g_pos(pos), g_opt(path, g_str), g_str(name if isinstance(name, str) else repr(name)),
-        g_N(ist(st)), g_N(pay(payload)))
+    return Intern.get('Build_res %s %s %s %s %s' % (
+        g_pos(pos), g_opt(path, gi_str), gi_str(name if isinstance(name, str) else repr(name)),
+        g_N(ist(st)), g_N(pay(payload))), 'res')
 
 
 def g_reslist(rs, pay, ist):
@@ -545,8 +574,7 @@ def g_reslist(rs, pay, ist):
 
 
 def g_cres(name, is_del, payload, pay):
-    return '{| c_name := %s; c_lname := %s; c_del := %s; c_pay := %s |}' % (
-        g_str(name), g_str(name.lower()), g_bool(is_del), g_N(pay(payload)))
+    return Intern.get('Build_cres %s %s %s %s' % (gi_str(name), gi_str(name.lower()), g_bool(is_del), g_N(pay(payload))), 'cres')
 
 
 def res_ok(r):
@@ -633,14 +661,17 @@ def stream_stub(ctx, coq):
     modules = stub_modules()
     ist = object()
     rng = ctx.rng
-    small = [(pos, pk, nm, 0) for pos in (None, (0, 0), (1, 4), (2, 0), (10, 0))
-             for pk in (None, '/p/a.py', '/p/b.py') for nm in ('a', 'B')]
+    small = [(pos, pk, 'a', 0) for pos in (None, (0, 0), (1, 4), (10, 0)) for pk in (None, '/p/a.py', '/p/b.py')] + \
+            [(pos, pk, 'B', 0) for pos in (None, (1, 4)) for pk in (None, '/p/a.py')]
+    if not ctx.quick or ctx.intensify:
+        small = [(pos, pk, nm, 0) for pos in (None, (0, 0), (1, 0), (1, 4), (2, 0), (10, 0))
+                 for pk in (None, '/p/a.py', '/p/b.py') for nm in ('a', 'B')]
     wide_pos = [None, (0, 0), (1, 0), (1, 4), (1, 10), (2, 0), (9, 3), (10, 0), (11, 2), (100, 1), (0, 5)]
     wide_path = list(modules)
     wide_name = ['a', 'b', 'B', 'ab', '_a', 'A', 'é', 'Z', 'z']
     lists = [[s] for s in small] + [[s, t] for s in small for t in small]
     n_ex = len(lists)
-    for _ in range(ctx.n(450, 5000)):
+    for _ in range(ctx.vol(200, 4000)):
         k = rng.randint(2, 8)
         pool = [(rng.choice(wide_pos), rng.choice(wide_path), rng.choice(wide_name), 0)
                 for _ in range(rng.randint(1, 6))]
@@ -742,6 +773,7 @@ def _pipeline_task(task):
     from jedi.api import completion as comp_mod
     modules = stub_modules()
     out = []
+    install_capture()
     script = jedi.Script('x = 1\nx\n')
     for case in cases:
         try:
@@ -758,10 +790,15 @@ def _pipeline_task(task):
                 elif kind == 'goto':
                     orig = api.convert_names
                     api.convert_names = lambda ns, **kw: list(names)
+                    Cap.log, Cap.mark, Cap.calls, Cap.comp = [], 0, [], None
                     try:
                         res = script.goto(2, 0)
                     finally:
                         api.convert_names = orig
+                    # goto enumerates set(names): identity-hashed, so the order that reaches the sort is captured
+                    out.append(dict(ok=True, out=[back[id(d._name)] for d in res],
+                                    enum=[back[id(d._name)] for d in Cap.calls[-1][2]]))
+                    continue
                 else:
                     orig = api.find_references
                     api.find_references = lambda *a, **kw: list(names)
@@ -799,7 +836,7 @@ def stream_pipeline_prepare(ctx):
     tasks = {}
     for kind in ('infer', 'goto', 'refs'):
         cs = []
-        for _ in range(ctx.n(140, 2500)):
+        for _ in range(ctx.vol(60, 2000)):
             pool = [(rng.choice(pos), rng.choice(paths), rng.choice(names), 0) for _ in range(rng.randint(1, 5))]
             l = [rng.choice(pool) for _ in range(rng.randint(0, 7))]
             if rng.random() < 0.3:
@@ -812,7 +849,7 @@ def stream_pipeline_prepare(ctx):
         tasks[kind] = cs
     cn = ['foo', 'Foo', 'fOO', 'fob', 'bar', 'Bar', '_foo', '_Foo', '__foo', '__Foo', 'éa', 'Éa', 'f', 'F']
     cs = []
-    for _ in range(ctx.n(200, 3000)):
+    for _ in range(ctx.vol(80, 2500)):
         like = rng.choice(['', '', 'f', 'F', 'fo', 'b', '_', '__', 'é'])
         fuzzy = rng.random() < 0.3
         specs = [(rng.choice(cn), rng.random() < 0.08, rng.randint(0, 3)) for _ in range(rng.randint(0, 9))]
@@ -844,7 +881,7 @@ def stream_pipeline_finish(ctx, coq, tasks, results):
                 enum = [(n, d, p) for (n, d, p) in specs if H.match(n.lower(), like_l, fuzzy=fuzzy)]
                 g_in = g_list([g_cres(n, d, p, pay) for (n, d, p) in enum], lambda x: x, 'cres')
                 g_out = g_list([g_cres(n, False, p, pay) for (n, p) in r['out']], lambda x: x, 'cres')
-                coq.add('pipeline-complete', '(JComp %s %s %s)' % (g_str(like), g_in, g_out),
+                coq.add('pipeline-complete', '(JComp %s %s %s)' % (gi_str(like), g_in, g_out),
                         'Script.complete post-processing (filter_names, sort) on stub names vs complete_out', dict(input=c))
                 # direct oracle: enumerations with the same survivors and no key tie give the same list
                 surv, seen = [], set()
@@ -869,7 +906,7 @@ def stream_pipeline_finish(ctx, coq, tasks, results):
                 specs = [(tuple(s[0]) if s[0] else None, s[1], s[2], s[3]) for s in c]
                 outs = [specs[i] for i in r['out']]
                 wf = all(spec_wf(s) for s in specs)
-                gl = g_reslist([spec_res(s) for s in specs], pay, idn)
+                gl = g_reslist([spec_res(specs[i]) for i in r['enum']] if kind == 'goto' else [spec_res(s) for s in specs], pay, idn)
                 if kind == 'goto':
                     outs = sorted(outs, key=lambda s: key_of(spec_res(s)))
                 ctor = {'infer': 'JInfer', 'goto': 'JGoto', 'refs': 'JRefs'}[kind]
@@ -952,13 +989,13 @@ class CoqJobs:
         shard = max(120, -(-n // 12))
 
         def ties():
-            return common.coq_failing(IMPORTS, 'jcheck', self.cases, shard=shard, timeout=1200, defs=JDEFS)
+            return common.coq_failing(IMPORTS, 'jcheck', self.cases, shard=shard, timeout=1200, defs=Intern.text() + JDEFS)
 
         def classes():
             if not self.terms:
                 return [], None
             return common.coq_eval_N_lists(IMPORTS, '(fun x : list N => x)', self.terms,
-                                           shard=max(10, -(-len(self.terms) // 4)), timeout=1200)
+                                           shard=max(10, -(-len(self.terms) // 4)), timeout=1200, defs=Intern.text())
         with ThreadPoolExecutor(max_workers=2) as ex:
             f1, f2 = ex.submit(ties), ex.submit(classes)
             (fails, err), (vals, err2) = f1.result(), f2.result()
@@ -1069,7 +1106,7 @@ def tie_cases_from(coq, stream, method, rec, meta):
         cpay = Numbering()
         gi = g_list([g_cres(e[1], e[2], e[3], cpay) for e in cp['enum']], lambda x: x, 'cres')
         go = g_list([g_cres(o[0], False, o[2], cpay) for o in rec['final']], lambda x: x, 'cres')
-        coq.add(stream + '-complete', '(JComp %s %s %s)' % (g_str(cp['like']), gi, go),
+        coq.add(stream + '-complete', '(JComp %s %s %s)' % (gi_str(cp['like']), gi, go),
                 'Script.complete result vs complete_out of the names handed to filter_names', meta)
 
 
@@ -1085,7 +1122,7 @@ def classify_difference(method, rec_a, rec_b):
         if 'comp' not in rec_a or 'comp' not in rec_b or rec_a['comp']['like'] != rec_b['comp']['like']:
             return None
         cpay = Numbering()
-        like = g_str(rec_a['comp']['like'])
+        like = gi_str(rec_a['comp']['like'])
         e1 = g_list([g_cres(e[1], e[2], e[3], cpay) for e in rec_a['comp']['enum']], lambda x: x, 'cres')
         e2 = g_list([g_cres(e[1], e[2], e[3], cpay) for e in rec_b['comp']['enum']], lambda x: x, 'cres')
         o1 = g_list([g_cres(o[0], False, o[2], cpay) for o in rec_a['final']], lambda x: x, 'cres')
@@ -1139,6 +1176,16 @@ def report_differences(ctx, coq, stream, diffs):
         fam = {'complete_fuzzy': 'complete', 'goto_fi': 'goto', 'refs_file': 'refs'}.get(m, m)
         sig = dict(cls='enumeration-order' if predicted else d.get('cls', 'result-differs'), method=fam,
                    mechanism=mech, predicted=predicted)
+        fm = d.get('extra', {}).get('flow_mode')
+        if fm and not predicted:
+            sig = dict(cls=d['cls'], method=fam, mechanism='memo-other-flow-mode',
+                       predicted=bool(fm['between'] and fm['modes_differ']))
+        memo = d.get('extra', {}).get('memo')
+        if memo and not predicted:
+            internal = memo['fresh_exception'] != 'ValueError' or 'api/helpers.py' not in str(memo['fresh_site'])
+            sig = dict(cls=d['cls'], method=fam, mechanism='memo-default-after-exception',
+                       predicted=bool(internal and memo['same_exception_raised_earlier_on_this_script']),
+                       fresh_exception=memo['fresh_exception'], fresh_site=memo['fresh_site'])
         data = dict(stream=stream, method=m, source=d['case']['source'], path=d['case']['path'],
                     line=d['query'][1], column=d['query'][2], model_flags=f,
                     observed_a=d['rec_a'].get('final', d['rec_a'].get('exc')),
@@ -1148,7 +1195,13 @@ def report_differences(ctx, coq, stream, diffs):
         what = ('%s: Script.%s at %d:%d gives different results %s' % (
             stream, m, d['query'][1], d['query'][2],
             'for two enumeration orders of the same engine results (model: %s)' % mech if predicted
-            else '- NOT explained by the enumeration order of the same results'))
+            else ('- the query raises %s on a fresh Script but returns after the same exception was raised earlier on this Script '
+                  '(recursion default left in the memo)' % sig.get('fresh_exception')
+                  if sig.get('mechanism') == 'memo-default-after-exception' and sig['predicted']
+                  else ('- the result lies between the results with flow analysis held on and held off: memo entries written '
+                        'while find_references had flow analysis switched off (or before it) are reused across the switch'
+                        if sig.get('mechanism') == 'memo-other-flow-mode' and sig['predicted']
+                        else '- NOT explained by the enumeration order of the same results'))))
         ctx.deviation(sig, data, what)
 
     for d in diffs:
@@ -1209,6 +1262,7 @@ def analyse_xproc(ctx, coq, cases, variants, results):
 # =====================================================================================
 class Tr:
     installed = False
+    force_flow = None       # None, or the value every read of flow_analysis_enabled returns (oracle variants)
     log = []
     on = False
     ids = {}
@@ -1238,6 +1292,8 @@ def install_tracing():
         priv = '_c16_' + attr
 
         def get(self):
+            if evname == 'Flow' and Tr.force_flow is not None:
+                return Tr.force_flow
             return self.__dict__[priv]
 
         def set_(self, v):
@@ -1342,8 +1398,30 @@ def read_transients(script):
                 dyn=st.dynamic_params_depth, swapped=swapped)
 
 
+FP_EXPECTED = {
+    "jedi/api/helpers.py:sorted_definitions": "71c8dd6e3b316cac",
+    "jedi/api/classes.py:Name.__eq__": "c6c2581feb200f1b",
+    "jedi/api/classes.py:Name.__hash__": "9a63d241084d7e0e",
+    "jedi/api/classes.py:BaseName.line": "cf081a7c95d562a6",
+    "jedi/api/classes.py:BaseName.column": "8bf96483e73bb874",
+    "jedi/api/classes.py:BaseName.module_path": "6bdb4e3d8ac8fd0d",
+    "jedi/api/__init__.py:Script.infer": "65ab49d55f6f8191",
+    "jedi/api/__init__.py:Script.goto": "9d400157a7f69c92",
+    "jedi/api/__init__.py:Script.get_references": "ea411c0321d508e5",
+    "jedi/api/__init__.py:Script.get_signatures": "ad3ec1897977371e",
+    "jedi/api/__init__.py:Script._analysis": "3f5a3fa6ac3bf1a5",
+    "jedi/api/completion.py:Completion.complete": "3747374f6b35dcab",
+    "jedi/api/completion.py:filter_names": "154450354571d473",
+    "jedi/inference/references.py:find_references": "36a783259b902a62",
+    "jedi/inference/context.py:AbstractContext.predefine_names": "5fbb5e406253d408",
+    "jedi/inference/recursion.py:execution_allowed": "60b71c1bb8abe0ed",
+    "jedi/inference/recursion.py:execution_recursion_decorator": "6c60662bd3c25cfa",
+    "jedi/inference/__init__.py:InferenceState.reset_recursion_limitations": "beb0afd7c566cf14",
+    "jedi/inference/cache.py:_memoize_default": "e989747e3942b7cd"
+}
+
 IDLE = dict(flow=True, ana=False, rec=[], exlvl=0, exstk=[], pre=[], dyn=0, swapped=0)
-MAX_TRACE = 500
+MAX_TRACE = 250
 
 
 def run_traced(script, method, line, col, root):
@@ -1373,10 +1451,20 @@ def _repeat_task(task):
     install_capture()
     install_tracing()
     root = case['root']
-    out = dict(fresh=[], pairs=[], scheds=[])
+    out = dict(fresh=[], pairs=[], scheds=[], fresh_on=[], fresh_off=[])
     try:
         for (m, ln, c) in pool:
             out['fresh'].append(run_traced(make_script(case), m, ln, c, root))
+        # the same queries with flow analysis held on / held off for the whole query: the two pure modes between
+        # which a result assembled from memo entries of mixed origin must lie (C16_memo_ignores_flow_mode_refuted)
+        for mode, key in ((True, 'fresh_on'), (False, 'fresh_off')):
+            out[key] = []
+            for (m, ln, c) in pool:
+                Tr.force_flow = mode
+                try:
+                    out[key].append(slim(run_one(make_script(case), m, ln, c, root)))
+                finally:
+                    Tr.force_flow = None
         n = len(pool)
         for i in range(n):
             for j in range(n):
@@ -1455,6 +1543,12 @@ def make_repeat_tasks(ctx, cases):
                 pool.append(tuple(rng.choice(by_m[m])))
         # deliberately failing queries: out-of-range position (ValueError) ...
         pool.append((rng.choice(['infer', 'goto', 'refs', 'complete', 'signatures']), len(lines) + 5, 0))
+        # ... and queries that raise from deep inside the engine (crash corner: K2 on `kk.real`, K1/K3/K4 at a crash tail)
+        for i, ln in enumerate(lines, 1):
+            if ln == 'kk.real':
+                pool.append((rng.choice(['infer', 'refs', 'goto_fi', 'help']), i, rng.choice([0, 1, 4, 6])))
+        if lines[-1].endswith('.') and rng.random() < 0.8:
+            pool.append(('complete', len(lines), len(lines[-1])))
         if rng.random() < 0.5:
             pool.append((rng.choice(['infer', 'help']), 1, 10 ** 6))
         rest = [tuple(q) for q in qs if tuple(q) not in pool]
@@ -1529,7 +1623,7 @@ def analyse_repeat(ctx, coq, tasks, results):
             check_transients(task, q, r, 'fresh')
             tie_cases_from(coq, 'repeat', q[0], r, dict(source=case['source'], path=case['path'], query=q))
 
-        def compare(qi, rec, where):
+        def compare(qi, rec, where, prior):
             q = pool[qi]
             check_transients(task, q, rec, where)
             tie_cases_from(coq, 'repeat', q[0], rec, dict(source=case['source'], path=case['path'], query=q, history=where))
@@ -1538,19 +1632,38 @@ def analyse_repeat(ctx, coq, tasks, results):
             ctx.count('repeat', (case['source'], q, where), nontrivial=nres >= 2 or not rec['ok'])
             if v != fviews[qi]:
                 fr = fresh[qi]
-                cls = 'repeat-differs'
+                cls, extra = 'repeat-differs', dict(history=where)
                 if fr['ok'] != rec['ok']:
                     cls = 'repeat-raise-vs-result'
+                    if not fr['ok']:
+                        # the model's memo machine (C16_memo_default_survives_exception_refuted): an exception that
+                        # crossed _memoize_default left the recursion default behind; the query that raised on a
+                        # fresh Script now reads that default and returns
+                        e = (fr['exc'].get('exc'), fr['exc'].get('site'))
+                        extra['memo'] = dict(fresh_exception=e[0], fresh_site=e[1],
+                                             same_exception_raised_earlier_on_this_script=e in prior)
                 elif not fr['ok']:
                     cls = 'repeat-different-exception'
-                diffs.append(dict(method=q[0], case=case, query=q, rec_a=fr, rec_b=rec, cls=cls,
-                                  extra=dict(history=where)))
+                    e = (fr['exc'].get('exc'), fr['exc'].get('site'))
+                    extra['memo'] = dict(fresh_exception=e[0], fresh_site=e[1],
+                                         same_exception_raised_earlier_on_this_script=e in prior)
+                else:
+                    lo, hi = res['fresh_on'][qi], res['fresh_off'][qi]
+                    if lo['ok'] and hi['ok'] and q[0] not in ('complete', 'complete_fuzzy', 'complete_search', 'syntax_errors', 'analysis'):
+                        idn = lambda rr: {json.dumps([r[0], r[1], r[2]]) for r in rr['final']}
+                        extra['flow_mode'] = dict(between=idn(lo) <= idn(rec) <= idn(hi), modes_differ=idn(lo) != idn(hi),
+                                                  flow_on=sorted(idn(lo)), flow_off=sorted(idn(hi)))
+                diffs.append(dict(method=q[0], case=case, query=q, rec_a=fr, rec_b=rec, cls=cls, extra=extra))
+            if not rec['ok']:
+                prior.add((rec['exc'].get('exc'), rec['exc'].get('site')))
         for (i, j, r1, r2) in res['pairs']:
-            compare(i, r1, 'first on a new Script')
-            compare(j, r2, 'after %s' % (list(pool[i]),))
+            prior = set()
+            compare(i, r1, 'first on a new Script', prior)
+            compare(j, r2, 'after %s' % (list(pool[i]),), prior)
         for sch, rs in zip(task['schedules'], res['scheds']):
+            prior = set()
             for k, (qi, r) in enumerate(zip(sch, rs)):
-                compare(qi, r, 'after %s' % ([list(pool[x]) for x in sch[:k]][-8:],))
+                compare(qi, r, 'after %s' % ([list(pool[x]) for x in sch[:k]][-8:],), prior)
     # one report per (case, query, class)
     uniq, keep = set(), []
     for d in diffs:
@@ -1566,10 +1679,20 @@ def analyse_repeat(ctx, coq, tasks, results):
 
 
 # =====================================================================================
+def setup_volumes(ctx):
+    fps = common.fingerprint(FP)
+    ctx.cov['fingerprints'] = fps
+    changed = sorted(k for k, v in fps.items() if FP_EXPECTED.get(k) != v)
+    ctx.intensify = bool(changed)
+    ctx.cov['intensified'] = changed
+    # change-directed intensification (DESIGN §2): an edited anchor gets thorough-tier correspondence volume
+    ctx.vol = lambda q, t: t if (ctx.intensify or not ctx.quick) else q
+
+
 def run(ctx):
     common.setup_jedi(os.path.join(ctx.tmp, 'cache'))
     t0 = time.time()
-    ctx.cov['fingerprints'] = common.fingerprint(FP)
+    setup_volumes(ctx)
     ctx.cov['rule'] = (
         'stub: all enumerations of length <= 2 over 36 stub results + seeded lists (<= 8, shuffles, incoherent payloads); '
         'pipeline: seeded stub engine results through Script.infer/goto/get_references/complete; '
